@@ -236,6 +236,29 @@ Fixpoint is_pure_infallible_to_bool (e : expr) : option bool :=
   | _ => None
   end.
 
+(* NOT the code: is_pure_infallible_to_bool with the dict arm written the way the list/tuple arm is written ("the entries are
+   pure and infallible, so the truth value is `number of entries <> 0`").  The code restricts its dict arm to the EMPTY display
+   (`ExprCompiled::Dict(xs) if xs.is_empty() => Some(false)`, presence read from the Rust text: OptC.to_bool_dict_only_empty).
+   This variant is kept to show that the restriction is necessary (C02_dict_to_bool_guard_necessary): evaluating the entries
+   of `{[]: 1}` or `{"a": 1, "a": 2}` has no effect and cannot fail, BUILDING the dict fails (unhashable / repeated key), and a
+   condition folded from the shape of the display loses that failure. *)
+Definition to_bool_dict_by_entries (e : expr) : option bool :=
+  match e with
+  | Dict (_ :: _ as xs) => if all_pure_infallible xs then Some true else None
+  | _ => is_pure_infallible_to_bool e
+  end.
+
+(* the smart constructors that consume the prediction, over an arbitrary predictor `tb`
+   (with tb := is_pure_infallible_to_bool: logical_bin_op, and the constant cases of if_expr) *)
+Definition logical_bin_op_with (tb : expr -> option bool) (op : lop) (l r : expr) : expr :=
+  match tb l with
+  | Some lv => if Bool.eqb lv (match op with Or => true | And => false end) then l else r
+  | None => LogicalBinOp op l r
+  end.
+
+Definition if_expr_with (tb : expr -> option bool) (c t f : expr) : expr :=
+  match tb c with Some true => t | Some false => f | None => If c t f end.
+
 (* ExprCompiled::is_definitely_bool *)
 Definition is_definitely_bool (e : expr) : bool :=
   match e with
